@@ -150,7 +150,7 @@ class _NumericOperationsImpl(OperationsBlock):
 
     @validate_core
     def not_equal(self, x, y) -> Array:
-        return ndx.logical_not(x == y)
+        return ndx.logical_not(ndx.equal(x, y))
 
     @validate_core
     def exp(self, x):
